@@ -124,4 +124,164 @@ theorem be32_putU32 (h : UInt32) (x : Bytes) : be32 (putU32 h ++ x) = some h := 
 
 theorem putU32_length (h : UInt32) : (putU32 h).length = 4 := rfl
 
+theorem runesOf_ascii {c : UInt8} (rest : Bytes) (h : c.toNat < 0x80) :
+    runesOf (c :: rest) = (runesOf rest).map (c.toNat :: ·) := by
+  rw [runesOf.eq_def]; simp only [h, if_true]
+
+theorem runesOf_two {c b1 : UInt8} (r : Bytes) (h1 : ¬ c.toNat < 0x80) (h2 : ¬ c.toNat < 0xC2) (h3 : c.toNat < 0xE0) :
+    runesOf (c :: b1 :: r) =
+      if isCont b1 then (runesOf r).map (((c.toNat - 0xC0) * 64 + (b1.toNat - 0x80)) :: ·) else none := by
+  rw [runesOf.eq_def]; simp only [h1, h2, h3, if_true, if_false]
+
+theorem runesOf_three {c b1 b2 : UInt8} (r : Bytes) (h1 : ¬ c.toNat < 0x80) (h2 : ¬ c.toNat < 0xC2)
+    (h3 : ¬ c.toNat < 0xE0) (h4 : c.toNat < 0xF0) :
+    runesOf (c :: b1 :: b2 :: r) =
+      if (decide ((if c.toNat == 0xE0 then 0xA0 else 0x80) ≤ b1.toNat) &&
+          decide (b1.toNat ≤ (if c.toNat == 0xED then 0x9F else 0xBF)) && isCont b2) then
+        (runesOf r).map (((c.toNat - 0xE0) * 4096 + (b1.toNat - 0x80) * 64 + (b2.toNat - 0x80)) :: ·)
+      else none := by
+  rw [runesOf.eq_def]; simp only [h1, h2, h3, h4, if_true, if_false]
+
+theorem runesOf_four {c b1 b2 b3 : UInt8} (r : Bytes) (h1 : ¬ c.toNat < 0x80) (h2 : ¬ c.toNat < 0xC2)
+    (h3 : ¬ c.toNat < 0xE0) (h4 : ¬ c.toNat < 0xF0) (h5 : c.toNat < 0xF5) :
+    runesOf (c :: b1 :: b2 :: b3 :: r) =
+      if (decide ((if c.toNat == 0xF0 then 0x90 else 0x80) ≤ b1.toNat) &&
+          decide (b1.toNat ≤ (if c.toNat == 0xF4 then 0x8F else 0xBF)) && isCont b2 && isCont b3) then
+        (runesOf r).map (((c.toNat - 0xF0) * 262144 + (b1.toNat - 0x80) * 4096 + (b2.toNat - 0x80) * 64 + (b3.toNat - 0x80)) :: ·)
+      else none := by
+  rw [runesOf.eq_def]; simp only [h1, h2, h3, h4, h5, if_true, if_false]
+
+theorem runesOf_append {a : Bytes} {ra : List Nat} (b : Bytes) (h : runesOf a = some ra) :
+    runesOf (a ++ b) = (runesOf b).map (ra ++ ·) := by
+  fun_induction runesOf a generalizing ra
+  case case1 => simp at h; subst h; simp
+  case case2 c rest x hx ih =>
+    rw [List.cons_append, runesOf_ascii _ hx]
+    simp only [Option.map_eq_some_iff] at h
+    obtain ⟨r, hr, rfl⟩ := h
+    rw [ih hr]; simp [Option.map_map, Function.comp_def]; rfl
+  case case4 c x h1 h2 h3 b1 r hc ih =>
+    rw [List.cons_append, List.cons_append, runesOf_two _ h1 h2 h3, if_pos hc]
+    simp only [Option.map_eq_some_iff] at h
+    obtain ⟨r', hr, rfl⟩ := h
+    rw [ih hr]; simp [Option.map_map, Function.comp_def]; rfl
+  case case7 c x h1 h2 h3 h4 b1 b2 r lo hi hc ih =>
+    rw [List.cons_append, List.cons_append, List.cons_append, runesOf_three _ h1 h2 h3 h4, if_pos hc]
+    simp only [Option.map_eq_some_iff] at h
+    obtain ⟨r', hr, rfl⟩ := h
+    rw [ih hr]; simp [Option.map_map, Function.comp_def]; rfl
+  case case10 c x h1 h2 h3 h4 h5 b1 b2 b3 r lo hi hc ih =>
+    rw [List.cons_append, List.cons_append, List.cons_append, List.cons_append,
+      runesOf_four _ h1 h2 h3 h4 h5, if_pos hc]
+    simp only [Option.map_eq_some_iff] at h
+    obtain ⟨r', hr, rfl⟩ := h
+    rw [ih hr]; simp [Option.map_map, Function.comp_def]; rfl
+  all_goals cases h
+/-- an ASCII byte of a well-formed string is one of its runes -/
+theorem runesOf_ascii_mem {a : Bytes} {ra : List Nat} (h : runesOf a = some ra) :
+    ∀ d ∈ a, d.toNat < 0x80 → d.toNat ∈ ra := by
+  fun_induction runesOf a generalizing ra
+  case case1 => simp
+  case case2 c rest x hx ih =>
+    simp only [Option.map_eq_some_iff] at h
+    obtain ⟨r, hr, rfl⟩ := h
+    intro d hd hlt
+    rcases List.mem_cons.mp hd with rfl | hd
+    · exact List.mem_cons_self
+    · exact List.mem_cons_of_mem _ (ih hr d hd hlt)
+  case case4 c x h1 h2 h3 b1 r hc ih =>
+    simp only [Option.map_eq_some_iff] at h
+    obtain ⟨r', hr, rfl⟩ := h
+    intro d hd hlt
+    simp only [isCont, Bool.and_eq_true, decide_eq_true_eq] at hc
+    simp only [List.mem_cons] at hd
+    rcases hd with rfl | rfl | hd
+    · exact absurd hlt h1
+    · omega
+    · exact List.mem_cons_of_mem _ (ih hr d hd hlt)
+  case case7 c x h1 h2 h3 h4 b1 b2 r lo hi hc ih =>
+    simp only [Option.map_eq_some_iff] at h
+    obtain ⟨r', hr, rfl⟩ := h
+    intro d hd hlt
+    simp only [isCont, Bool.and_eq_true, decide_eq_true_eq] at hc
+    have hlo : 0x80 ≤ lo := by show 0x80 ≤ (if (x == 224) = true then 160 else 128); split <;> omega
+    simp only [List.mem_cons] at hd
+    rcases hd with rfl | rfl | rfl | hd
+    · exact absurd hlt h1
+    · omega
+    · omega
+    · exact List.mem_cons_of_mem _ (ih hr d hd hlt)
+  case case10 c x h1 h2 h3 h4 h5 b1 b2 b3 r lo hi hc ih =>
+    simp only [Option.map_eq_some_iff] at h
+    obtain ⟨r', hr, rfl⟩ := h
+    intro d hd hlt
+    simp only [isCont, Bool.and_eq_true, decide_eq_true_eq] at hc
+    have hlo : 0x80 ≤ lo := by show 0x80 ≤ (if (x == 240) = true then 144 else 128); split <;> omega
+    simp only [List.mem_cons] at hd
+    rcases hd with rfl | rfl | rfl | rfl | hd
+    · exact absurd hlt h1
+    · omega
+    · omega
+    · omega
+    · exact List.mem_cons_of_mem _ (ih hr d hd hlt)
+  all_goals cases h
+
+/-- an all-ASCII string is well formed and its runes are its bytes -/
+theorem runesOf_of_ascii : ∀ (s : Bytes), (∀ c ∈ s, c.toNat < 0x80) → runesOf s = some (s.map (·.toNat))
+  | [], _ => by simp [runesOf]
+  | c :: rest, h => by
+    rw [runesOf_ascii _ (h c List.mem_cons_self),
+      runesOf_of_ascii rest (fun d hd => h d (List.mem_cons_of_mem _ hd))]
+    simp
+
+theorem validMsg_append {a b : Bytes} (ha : validMsg a = true) (hb : validMsg b = true) :
+    validMsg (a ++ b) = true := by
+  unfold validMsg at ha hb ⊢
+  split at ha
+  · cases ha
+  · rename_i ra hra
+    split at hb
+    · cases hb
+    · rename_i rb hrb
+      rw [runesOf_append b hra, hrb]
+      simp only [Option.map_some, List.all_append, Bool.and_eq_true]
+      exact ⟨ha, hb⟩
+
+/-- printable ASCII (and newline) is valid message text -/
+theorem validMsg_of_ascii (s : Bytes) (h : ∀ c ∈ s, (0x20 ≤ c.toNat ∨ c = 10) ∧ c.toNat < 0x80) :
+    validMsg s = true := by
+  unfold validMsg
+  rw [runesOf_of_ascii s (fun c hc => (h c hc).2)]
+  simp only [List.all_map, List.all_eq_true, Function.comp_apply, Bool.not_eq_eq_eq_not, Bool.not_true,
+    Bool.and_eq_false_imp, decide_eq_true_eq, bne_eq_false_iff_eq]
+  intro c hc hlt
+  rcases (h c hc).1 with h1 | rfl
+  · omega
+  · rfl
+
+/-- what a valid key name gives the signature-line parser -/
+theorem isValidName_spec {name : Bytes} (h : isValidName name = true) :
+    name ≠ [] ∧ validMsg name = true ∧ (10 : UInt8) ∉ name ∧ (32 : UInt8) ∉ name := by
+  unfold isValidName at h
+  simp only [Bool.and_eq_true, Bool.not_eq_eq_eq_not, Bool.not_true] at h
+  obtain ⟨⟨⟨hne, hsp⟩, _⟩, hctl⟩ := h
+  split at hsp
+  · cases hsp
+  · rename_i rs hrs
+    rw [hrs] at hctl
+    simp only [Bool.not_eq_eq_eq_not, Bool.not_true, List.any_eq_false, decide_eq_true_eq] at hsp hctl
+    refine ⟨by simpa [List.isEmpty_iff] using hne, ?_, ?_, ?_⟩
+    · unfold validMsg
+      rw [hrs]
+      simp only [List.all_eq_true, Bool.not_eq_eq_eq_not, Bool.not_true, Bool.and_eq_false_imp,
+        decide_eq_true_eq]
+      intro r hr hlt
+      exact absurd hlt (hctl r hr)
+    · intro hmem
+      have := runesOf_ascii_mem hrs 10 hmem (by decide)
+      exact absurd (by decide : isSpace (10 : UInt8).toNat = true) (by simpa using hsp _ this)
+    · intro hmem
+      have := runesOf_ascii_mem hrs 32 hmem (by decide)
+      exact absurd (by decide : isSpace (32 : UInt8).toNat = true) (by simpa using hsp _ this)
+
 end ModVerif.Note
